@@ -964,6 +964,7 @@ class ExternalTensor(TensorBase, _protocols.TensorProtocol):  # pylint: disable=
                         copied += copied_now
                 except OSError as error:
                     if error.errno not in {
+                        errno.EBADF,
                         errno.EINVAL,
                         errno.ENOSYS,
                         errno.EOPNOTSUPP,
